@@ -33,6 +33,11 @@ func c20Op(kind string, seed uint64) string {
 			if d.Format == "stl" && r.P(1, 4) && len(d.Data) >= 1024 {
 				copy(d.Data[3:11], fw.Pick(r, []string{"STL24.01", "STL50.01", "STL60.01"})) // an unknown disk format code
 			}
+			if d.Format == "ttml" && r.P(1, 3) {
+				for _, id := range []string{` xml:id="r0"`, ` id="r0"`, ` xml:id='r0'`, ` id='r0'`} {
+					d.Data = bytes.Replace(d.Data, []byte(id), nil, 1) // a region without identifier (cues naming it are then rejected: an error is a result too)
+				}
+			}
 			s, err := d.Read(bytes.NewReader(d.Data))
 			if err != nil {
 				out = "err:" + err.Error()
